@@ -29,6 +29,9 @@ class Gen:
         self.allow_subs = allow_subs
         self.allow_halt = allow_halt
         self.locals = 0
+        self.targets = ["q", "r"]
+        self.reset_kind = None
+        self.on_reset = False
 
     # ---- expressions -------------------------------------------------------------------------
     def expr(self, depth=0):
@@ -81,13 +84,13 @@ class Gen:
         if c < 2:
             return self.mark()
         if c == 2:
-            return ["sig", rs.choice(["q", "r"]), self.expr()]
+            return ["sig", rs.choice(self.targets), self.expr()]
         if c == 3:
             return ["var", rs.choice(self.vars), self.expr()]
         if c == 4:
             v = rs.choice(self.vars)
             return ["var", v, ["addk", ["v", v], 1]]
-        return ["sig", rs.choice(["q", "r"]), ["addk", ["port", rs.choice(["q", "r"])], 1]]
+        return ["sig", rs.choice(self.targets), ["addk", ["port", rs.choice(["q", "r"])], 1]]
 
     def block(self, depth, in_loop, in_sub, susp_before=False, min_len=1):
         """susp_before: a statement that always suspends precedes in this iteration (continue is safe)"""
@@ -166,10 +169,13 @@ class Gen:
         body = self.block(0, False, False, False, min_len=2)
         if self.allow_halt and rs.below(12) == 0:
             body.append(["halt"])
+        reset = None
+        if self.reset_kind is not None:
+            reset = {"kind": self.reset_kind, "on_reset": self.on_reset, "extra_ports": "nd" in self.targets}
         return {
             "edge": "falling" if rs.below(6) == 0 else "rising",
             "step_cond": rs.below(4) == 0,
-            "reset": None,
+            "reset": reset,
             "subs": self.subs,
             "body": body,
             "vars": {v: rs.below(16) for v in self.vars},
@@ -324,6 +330,13 @@ def render(prog, attrs=None):
         "    acc = Port.output(Unsigned[8], default=0)",
         f"    q = Port.output(Unsigned[{W}], default=0)",
         f"    r = Port.output(Unsigned[{W}], default=0)",
+    ]
+    rst = prog.get("reset") or {}
+    if rst.get("extra_ports"):
+        L += [f"    nd = Port.output(Unsigned[{W}])", f"    nr = Port.output(Unsigned[{W}], default=3, noreset=True)"]
+    if rst.get("on_reset"):
+        L += [f"    orr = Port.output(Unsigned[{W}], default=0)"]
+    L += [
         "",
         "    def architecture(self):",
         "        accv = Variable[Unsigned[8]](0)",
@@ -346,6 +359,10 @@ def render(prog, attrs=None):
         kw += ", step_cond=lambda: self.en"
     if attrs:
         kw += ", attributes=" + repr(attrs)
+    if rst.get("on_reset"):
+        L.append("        def on_rst():")
+        L.append("            self.orr <<= 9")
+        kw += ", on_reset=on_rst"
     L.append(f"        @std.sequential({', '.join(args)}{kw})")
     L.append("        async def proc():")
     w = set()
